@@ -11,7 +11,7 @@
    ([KOob]) and an unwritten (np.empty) tail remains iff it is shorter ([KTail]).
    `while` loops whose progress is not evident run on explicit fuel ([KFuel]). *)
 From Coq Require Import ZArith List Bool.
-From Verif Require Import Py PyExt Shape COO GCXS G_dot NpDot.
+From Verif Require Import Py PyExt Shape COO GCXS G_dot S_dot NpDot.
 Import ListNotations.
 Open Scope Z_scope.
 
@@ -234,6 +234,57 @@ Section Dot.
              (out_cols : Z) : kres dense2 :=
     cn_while fuel rows cols data array2 out_cols 0 (fun _ _ => vzero).
 
+  (* ------------------------------------------------------------------ _dot_csc_ndarray_sparse *)
+  (* a (m x n) in CSC form = the CSR triple `a` of a.T (n rows of length-m index space), b a dense
+     n x p matrix; the result is the CSC triple of a @ b (p columns).  Pre-count
+     _csc_ndarray_count_nnz: per column i of b, the DISTINCT row indices touched through the
+     non-zero b[j, i]; it also fills indptr.  The kernel then accumulates the column with the same
+     linked list (in `mask`), but writes a cell only `if sums[head] != 0`. *)
+  Definition csc_keys (a_indices a_indptr : list Z) (b : dense2) (n_in : Z) (i : Z) : list Z :=
+    flat_map (fun j => if veqb (b j i) vzero then [] else row_cols a_indices a_indptr j) (zrange n_in).
+
+  (* returns (nnz, indptr[1:]) *)
+  Definition csc_ndarray_count_nnz (m n_in p : Z) (a_indices a_indptr : list Z) (b : dense2) : Z * list Z :=
+    let '(_, nnz, ptr) :=
+      fold_left (fun (st : list Z * Z * list Z) i =>
+                   let '(mask, nnz, ptr) := st in
+                   let '(mask', col_nnz) := fold_left (cnt_step i) (csc_keys a_indices a_indptr b n_in i) (mask, 0) in
+                   (mask', nnz + col_nnz, ptr ++ [nnz + col_nnz]))
+                (zrange p) (repeat (-1) (Z.to_nat m), 0, []) in
+    (nnz, ptr).
+
+  Definition csc_stream (a : csr) (b : dense2) (n_in : Z) (i : Z) : list (Z * V) :=
+    flat_map (fun j => let u := b j i in
+                       if veqb u vzero then []
+                       else map (fun kv => (fst kv, vmul u (snd kv))) (row_pairs a j)) (zrange n_in).
+
+  (*  for _ in range(length):
+         if sums[head] != 0: indices[nnz] = head; data[nnz] = sums[head]; nnz += 1
+         temp = head; head = mask[head]; mask[temp] = -1; sums[temp] = 0  *)
+  Fixpoint emit_nz (n : nat) (nx : list Z) (sm : list V) (head : Z) : list Z * list V * Z * list (Z * V) :=
+    match n with
+    | O => (nx, sm, head, [])
+    | S n' =>
+      let '(nx', sm', h', r) :=
+        emit_nz n' (wr nx head (-1)) (wr sm head vzero) (znth nx head 0) in
+      (nx', sm', h',
+       if negb (veqb (znth sm head vzero) vzero) then (head, znth sm head vzero) :: r else r)
+    end.
+
+  Definition dot_csc_ndarray_sparse (m n_in p : Z) (a : csr) (b : dense2) : kres csr :=
+    let '(cap, ptr) := csc_ndarray_count_nnz m n_in p (m_indices a) (m_indptr a) b in
+    let '(_, _, out) :=
+      fold_left (fun (st : list Z * list V * list (Z * V)) i =>
+                   let '(mask, sm, out) := st in
+                   let '(mask1, sm1, head, len) := fold_left acc_step (csc_stream a b n_in i) (mask, sm, -2, 0) in
+                   let '(mask2, sm2, _, r) := emit_nz (Z.to_nat len) mask1 sm1 head in
+                   (mask2, sm2, out ++ r))
+                (zrange p) (repeat (-1) (Z.to_nat m), repeat vzero (Z.to_nat m), []) in
+    let written := Z.of_nat (length out) in
+    if cap <? written then KOob
+    else if written <? cap then KTail
+    else KOk (mkCSR (map snd out) (map fst out) (0 :: ptr)).
+
   (* row-major table of a dense2 *)
   Definition tab2 (n_row n_col : Z) (o : dense2) : list V :=
     flat_map (fun i => map (fun j => o i j) (zrange n_col)) (zrange n_row).
@@ -368,8 +419,9 @@ Section DotTop.
   Definition td_prod (sh : shape) (axes : list Z) : Z := fold_left (fun acc ax => acc * nthZ sh ax) axes 1.
 
   (* builtins.any(dim == 0 for dim in chain(newshape_a, newshape_b)) with newshape_a = (-1, N2a),
-     newshape_b = (N2b, -1): only the CONTRACTED extent is tested *)
-  Definition td_shortcut (N2a N2b : Z) : bool := existsb (fun d => d =? 0) [-1; N2a; N2b; -1].
+     newshape_b = (N2b, -1): only the CONTRACTED extent is tested.  Generated from the source
+     (Gen/S_dot.v, tools/sitegen/dot.py). *)
+  Definition td_shortcut (N2a N2b : Z) : bool := s_td_shortcut N2a N2b.
 
   (* tensordot on the dense meaning of the operands (their transposes/reshapes are C08's subject);
      operands with ndim >= 1, axes given as two lists *)
@@ -401,3 +453,36 @@ Section DotTop.
           Ok (np_reshape V (olda ++ oldb) res)
       end.
 End DotTop.
+
+(* ---------------------------------------------------------------------- ties to Gen/S_dot.v *)
+(* the codes of tools/sitegen/dot.py *)
+Definition okind_code (k : okind) : Z :=
+  match k with KCoo => 0 | KGcxs false => 1 | KGcxs true => 2 | KNd => 3 end.
+Definition rtype_code (r : rtype) : Z := match r with RNone => 0 | RCoo => 1 | RGcxs => 2 | RNd => 3 end.
+Definition rkind_code (o : rkind) : Z :=
+  match o with OCoo => 0 | OGcxs false => 1 | OGcxs true => 2 | OGcxsAuto => 3 | ONd => 4 end.
+Definition kernel_code (k : kernel) : Z :=
+  match k with
+  | KerCsrCsr => 0 | KerCsrCsrT => 1 | KerCsrNd => 2 | KerCsrNdSparse => 3 | KerCscNd => 4 | KerCscNdSparse => 5
+  | KerCscNdT => 6 | KerCscNdSparseT => 7 | KerCsrNdT => 8 | KerCsrNdSparseT => 9 | KerCooCoo => 10 | KerCooNd => 11
+  | KerCooNdSparse => 12 | KerNdCoo => 13 | KerNdCooSparse => 14 | KerNpDot => 15
+  end.
+
+Fixpoint table_lookup (t : list (Z * Z * Z * Z * option (Z * Z))) (am ka kb rt : Z) : option (option (Z * Z)) :=
+  match t with
+  | [] => None
+  | (am', ka', kb', rt', r) :: t' =>
+    if (am =? am') && (ka =? ka') && (kb =? kb') && (rt =? rt') then Some r else table_lookup t' am ka kb rt
+  end.
+
+(* what the SOURCE of _dot does for these operand kinds (abstract execution of its AST) *)
+Definition source_dispatch (a_argmin : bool) (ka kb : okind) (rt : rtype) : option (option (Z * Z)) :=
+  table_lookup s_dot_table (if a_argmin then 1 else 0) (okind_code ka) (okind_code kb) (rtype_code rt).
+
+(* matmul: strategy selection by the generated case chain *)
+Inductive matmul_strategy := MmDot | MmDotMoveAxis | MmSqueezeA | MmSqueezeB | MmBatch.
+Definition matmul_route (a_ndim b_ndim a_lead b_lead : Z) : option matmul_strategy :=
+  match s_matmul_case (VInt a_ndim) (VInt b_ndim) (VInt a_lead) (VInt b_lead) with
+  | Ok (VInt 1) => Some MmDot | Ok (VInt 2) => Some MmDotMoveAxis | Ok (VInt 3) => Some MmSqueezeA
+  | Ok (VInt 4) => Some MmSqueezeB | Ok (VInt 5) => Some MmBatch | _ => None
+  end.
